@@ -199,6 +199,34 @@ Section Law.
       assert (X : n / a * a - n == 0) by (field; exact Ha). lra.
   Qed.
 
+  (* ---- uniqueness: the sharing rules (C03) and the balance (C01) leave no freedom ----
+     Let every unit of bus b follow the sharing rules at SOME common fraction l (equal-sharing units deliver
+     rated x l, fixed-share units their share, given-power units their set-point, stopped units nothing: that
+     is `contrib l`).  If that assignment balances the bus, then l is the fraction the calculation uses. *)
+  Lemma contrib_sum b l : wf -> admissible ->
+    qsum (map (contrib l) (filter (in_bus busmap b) cs)) == l * avail_bus cs busmap swbs b - net_bus cs busmap swbs b.
+  Proof.
+    intros Hwf Hadm. rewrite (net_bus_regroup b Hwf), (avail_bus_regroup b Hwf Hadm).
+    rewrite <- qsum_map_scale, <- qsum_map_sub. apply qsum_map_ext.
+    intros c Hc. apply filter_In in Hc as [Hc _]. destruct Hadm as [H1 [H2 _]].
+    apply contrib_eq; [apply H1|apply H2]; exact Hc.
+  Qed.
+
+  Theorem unique_fraction b l : wf -> admissible ->
+    qsum (map (contrib l) (filter (in_bus busmap b) cs)) == 0 ->
+    ~ avail_bus cs busmap swbs b == 0 ->
+    exists l0, load_bus cs busmap swbs b = Fin l0 /\ l == l0.
+  Proof.
+    intros Hwf Hadm Hbal Ha. rewrite (contrib_sum b l Hwf Hadm) in Hbal.
+    unfold load_bus, qzero. destruct (Qeq_bool (net_bus cs busmap swbs b) 0) eqn:E0.
+    - exists 0. split; [reflexivity|]. apply Qeq_bool_eq in E0. rewrite E0 in Hbal.
+      assert (X : l * avail_bus cs busmap swbs b == 0) by lra.
+      apply Qmult_integral in X. tauto.
+    - destruct (Qeq_bool (avail_bus cs busmap swbs b) 0) eqn:Ea.
+      + apply Qeq_bool_eq in Ea. contradiction.
+      + eexists. split; [reflexivity|]. field_simplify_eq; [lra|exact Ha].
+  Qed.
+
   (* ---- C03: load sharing ---- *)
   Lemma equal_fraction c l : load_of cs busmap swbs c = Fin l ->
     v_kind c = Source -> v_lsm c == 0 -> v_on c = true -> v_rated c > 0 ->
